@@ -190,6 +190,39 @@ pub fn run_replace_table(ac: &AhoCorasick, p: &Plan, rep: &[Vec<u8>]) -> Value {
     v
 }
 
+/// try_stream_replace_all with a replacement table, every write recorded
+/// (non-match chunks AND replacements are plain writes here); the k-th write
+/// may fail
+pub fn run_replace_table_ops(ac: &AhoCorasick, p: &Plan, rep: &[Vec<u8>]) -> Value {
+    let log: Log = Rc::new(RefCell::new(vec![]));
+    aho_corasick::verif::set_buffer_capacity(if p.cap == 0 { None } else { Some(p.cap) });
+    let rdr = ScriptedReader {
+        data: p.stream.clone(),
+        pos: 0,
+        script: p.script.clone(),
+        exact: p.exact,
+        calls: 0,
+        fail_at: p.rfail,
+        log: log.clone(),
+    };
+    let mut w = RecWriter { calls: 0, fail_at: p.wfail, log: log.clone(), out: vec![] };
+    let r = guarded(|| ac.try_stream_replace_all(rdr, &mut w, rep));
+    aho_corasick::verif::set_buffer_capacity(None);
+    let end = match r {
+        Ok(Ok(())) => "ok",
+        Ok(Err(_)) => "err",
+        Err(_) => "panic",
+    };
+    let ops = log.borrow().clone();
+    let mut v = plan_json(p);
+    v["ev"] = json!("stream");
+    v["mode"] = json!("table");
+    v["R"] = json!(rep);
+    v["ops"] = json!(ops);
+    v["end"] = json!(end);
+    v
+}
+
 /// StreamFindIter: reads and yielded items in order
 pub fn run_find(ac: &AhoCorasick, p: &Plan) -> Value {
     let log: Log = Rc::new(RefCell::new(vec![]));
@@ -296,6 +329,22 @@ pub fn run(out_prefix: &str, shards: usize, family: &str, seed: u64, scale: usiz
                             f["c"] = json!(cl);
                             out.put(shard, &f);
                             st.events += 1;
+                            // the table variant (plain writes for chunks and replacements)
+                            let rep: Vec<Vec<u8>> = (0..pats.len()).map(|k| [&b"<>"[..], &b""[..], &b"Z"[..]][(k + stream.len()) % 3].to_vec()).collect();
+                            let mut tb = run_replace_table_ops(&ac, &base, &rep);
+                            let nwrites = tb["ops"].as_array().unwrap().iter().filter(|o| o[0] == "w").count();
+                            tb["c"] = json!(cl);
+                            out.put(shard, &tb);
+                            st.events += 1;
+                            if faults {
+                                for k in 0..nwrites {
+                                    let p = Plan { wfail: Some(k), ..clone_plan(&base) };
+                                    let mut v = run_replace_table_ops(&ac, &p, &rep);
+                                    v["c"] = json!(cl);
+                                    out.put(shard, &v);
+                                    st.events += 1;
+                                }
+                            }
                             if faults {
                                 for k in 0..nreads {
                                     let p = Plan { rfail: Some(k), ..clone_plan(&base) };
@@ -323,6 +372,38 @@ pub fn run(out_prefix: &str, shards: usize, family: &str, seed: u64, scale: usiz
         }
         "rand" => {
             let mut rg = gen::rng(seed, 0x57_0001);
+            // streams longer than the DEFAULT buffer (64 KiB): matches placed around the
+            // capacity boundary, big reads / odd-sized reads; only the final output is
+            // recorded (validated against the in-memory replacement oracle)
+            for bi in 0..(2 * scale.min(2)) {
+                let pats: Pats = vec![b"needle".to_vec(), b"ne".to_vec(), b"dle!".to_vec(), b"xyzzyxyzzy".to_vec()];
+                let mut c = Ctx::new(&pats, "std", ["top-auto", "top-nc"][bi % 2]);
+                c.sk = "unanchored";
+                let ac = build_top(&c).expect("build");
+                let cl = ctx_line(&mut out, shard, &c, ac.max_pattern_len());
+                st.contexts += 1;
+                let cap = 64 * 1024;
+                let n = cap + 3000 + rg.gen_range(0..500);
+                let mut stream = vec![b'.'; n];
+                for &pos in &[cap - 12, cap - 6, cap - 3, cap - 1, cap, cap + 1, cap + 7, 2 * cap - 20 - 2950, 100, n - 6] {
+                    let p = &pats[rg.gen_range(0..pats.len())];
+                    if pos + p.len() <= n {
+                        stream[pos..pos + p.len()].copy_from_slice(p);
+                    }
+                }
+                let script = if bi % 2 == 0 { vec![] } else { vec![40_000, 7, 30_000, 1] };
+                let base = Plan { exact: false, stream, cap: 0, script, rfail: None, wfail: None };
+                let rep: Vec<Vec<u8>> = vec![b"<N>".to_vec(), b"<n>".to_vec(), b"".to_vec(), b"<X>".to_vec()];
+                // too long for the TLA+ replacement oracle: C08 is stated relative to the
+                // in-memory replace-all, so both outputs are recorded and TLC compares them
+                // (the in-memory routine itself is validated against the oracle in C12)
+                let t = run_replace_table(&ac, &base, &rep);
+                let mem = guarded(|| ac.replace_all_bytes(&base.stream, &rep)).unwrap_or_default();
+                out.put(shard, &json!({"ev":"stream_mem","c":cl,"len":base.stream.len(),"script":base.script,
+                    "res":t["res"],"mem":mem,"end":t["end"]}));
+                st.events += 1;
+                shard += 1;
+            }
             for i in 0..(40 * scale) {
                 let pool = gen::POOLS[rg.gen_range(0..gen::POOLS.len())];
                 let pats = gen::random_pats_over(&mut rg, pool, 6, 6, false);
@@ -380,6 +461,11 @@ pub fn run(out_prefix: &str, shards: usize, family: &str, seed: u64, scale: usiz
                             let mut v = run_replace(&ac, &p);
                             v["c"] = json!(cl);
                             out.put(shard, &v);
+                            st.events += 1;
+                            let p2 = Plan { wfail: Some(rg.gen_range(0..nemit)), ..clone_plan(&base) };
+                            let mut v2 = run_replace_table_ops(&ac, &p2, &rep);
+                            v2["c"] = json!(cl);
+                            out.put(shard, &v2);
                             st.events += 1;
                         }
                     }
